@@ -51,6 +51,9 @@ type C07Scenario struct {
 	// they come from the replay or from live publishes. (Which events it sees is C12's business, not checked here.)
 	ViaReplay bool `json:"via_replay,omitempty"`
 	Stored    int  `json:"stored,omitempty"`
+	// Deep: one publisher, 130-400 events, and a first invocation that lasts until (nearly) all of them are
+	// queued behind it: queues far longer than any fixed-size ring, table or batch an implementation might use
+	Deep bool `json:"deep,omitempty"`
 }
 
 func genC07(rt *rapid.T) core.Scenario {
@@ -91,7 +94,17 @@ func genC07(rt *rapid.T) core.Scenario {
 	}
 	sc.SlowFirst = rapid.IntRange(0, 2).Draw(rt, "slowFirst") == 2
 	sc.ExtCancel = sc.CancelEvery > 0 && rapid.Bool().Draw(rt, "extCancel")
-	if rapid.IntRange(0, 5).Draw(rt, "viaReplay") == 5 {
+	if rapid.IntRange(0, 19).Draw(rt, "deep") == 19 {
+		sc.Deep, sc.SlowFirst, sc.CancelEvery, sc.ExtCancel, sc.OnceBefore, sc.SelfUnsub = true, true, 0, false, 0, false
+		sc.Regs = sc.Regs[:1]
+		sc.Regs[0].Opts.Seq, sc.Regs[0].Opts.Async, sc.Regs[0].PanicOn = true, true, nil
+		k := rapid.SampledFrom([]int{129, 130, 200, 257, 400}).Draw(rt, "deepEvents")
+		var l []int
+		for j := 0; j < k; j++ {
+			l = append(l, 1000+j)
+		}
+		sc.Pubs = [][]int{l}
+	} else if rapid.IntRange(0, 5).Draw(rt, "viaReplay") == 5 {
 		sc.ViaReplay, sc.ViaAny, sc.CancelEvery, sc.ExtCancel = true, false, 0, false
 		sc.Stored = rapid.IntRange(1, 5).Draw(rt, "stored")
 		for i := range sc.Regs {
@@ -149,6 +162,9 @@ func (sc *C07Scenario) Execute(t *testing.T) *core.Outcome {
 			ny := sc.Yields
 			if sc.SlowFirst && calls[ri] == 0 {
 				ny = 40 * sc.Yields
+				if sc.Deep {
+					ny = 25 * len(sc.Pubs[0])
+				}
 			}
 			for i := 0; i < ny; i++ {
 				simrt.Yield(siteHandler)
